@@ -325,6 +325,15 @@ Theorem model_passes_C08_clause_1 :
 Proof. exact model_passes_C08_clause_1_lemma. Qed.
 Print Assumptions model_passes_C08_clause_1.
 
+(** clause 5: over an end-block a paused context keeps its batch counter — one model step from any
+    state whose stored context ids are distinct (true of every reachable state) *)
+Theorem model_passes_C08_clause_5 :
+  forall c s st univ seen fired tr sc pcode pnc pcb,
+    NoDup (keys (ctxs s)) ->
+    holds_C08 seen fired tr sc (obs_of univ pcode pnc pcb s) st (obs_step univ c s st) <> 5.
+Proof. exact model_passes_C08_clause_5_lemma. Qed.
+Print Assumptions model_passes_C08_clause_5.
+
 (** ** non-vacuity: a history in which one request is answered and its sibling expires; a
     late answer to the expired one and a duplicate answer to the answered one are rejected;
     the one-shot context is removed; a repeated context (frequency 3, total 2) starts its
